@@ -60,6 +60,10 @@ CLAIMED = {
    text="Precedence clause only: token.Token.Precedence is proved equal, for every token value, to the table in docs/tutorial.md (spec/30_syntax.smt2), with the five-level structure as a lemma.",
    note="Semicolon insertion, precedence climbing in the parser, literal values and the print/parse round trip are not covered.",
    ref="DESIGN.md §4 C20"),
+ "C19": dict(
+   text="Adapter family only: each of the 44 adapter closures of stdlib/func_typedefs.go is proved, for all argument lists, to reject a wrong argument count with ErrWrongNumArguments, to report the first non-convertible argument with its ordinal name, and otherwise to return exactly wrap(fn(arguments in order)) where the wrapped Go function fn is an uninterpreted pure function (so a transposed argument or a swapped coercion cannot satisfy the clause); string results honour MaxStringLen.",
+   note="Module tables (which Go function each name is bound to), hand-written wrappers (text.replace, pad, join, regexp, times), enum and the behaviour of the Go functions themselves are not covered; arguments of the natural type only (coercions through ToString/ToInt/... are covered by the C10 conversion contracts).",
+   ref="DESIGN.md §4 C19"),
 }
 for v in CLAIMED.values():
     v["technique"] = TECH
